@@ -313,6 +313,16 @@ pub fn rich_h2(r: &mut Rng, id: u64, hostile: bool) -> (Vec<u8>, Vec<u8>) {
 pub fn ep_for(r: &mut Rng, id: u64, v6: bool) -> Endpoints {
     let cport = 1025 + ((id * 7 + r.below(50000)) % 64000) as u16;
     let sport = *r.pick(&[80u16, 443, 8080, 8443]);
+    if r.chance(1, 10) {
+        // loopback-style connection: client and server on the same address
+        return if v6 {
+            let a: std::net::IpAddr = format!("2001:db8:c::{:x}", 1 + id % 0xfffe).parse().unwrap();
+            Endpoints { client: a, server: a, cport, sport }
+        } else {
+            let a = [127, 1 + (id >> 16) as u8 % 200, (id >> 8) as u8, id as u8];
+            Endpoints::v4(a, cport, a, sport)
+        };
+    }
     if v6 {
         Endpoints {
             client: format!("2001:db8:a::{:x}", 1 + id % 0xfffe).parse().unwrap(),
